@@ -135,12 +135,36 @@ theorem step_born {s s' : State} {e : Event} (hs : step s e = .ok s') :
        · left; rfl)
     | (right; refine ⟨_, _, rfl, ?_, (by simp; rfl)⟩; simp [*]))
 
-/-- The expiry time of an allocated note is changed only by `nsync_note_new` at note.c:182. -/
+/-- The expiry time of an allocated note is changed only by the thread that is creating it, when
+    the `nsync_note_is_notified (n)` of `nsync_note_new` returns (`newExpiry`). -/
 theorem step_expiry {s s' : State} {e : Event} (hs : step s e = .ok s') (k : NoteId)
     (hk : (s.notes k).allocated = true) :
     (s'.notes k).expiry = (s.notes k).expiry ∨
-    ∃ a p dl, e.actor = some a ∧ s.pc a = .newP .ld k p dl ∧
-      (s'.notes k).expiry = (s.notes p).ntime ∧ Dl.lt (s.notes p).ntime dl = true := by
+    ∃ a p dl, e.actor = some a ∧ (s.pc a).creating = some k ∧
+      ((∃ pos nt, s.pc a = .dl pos k nt (.newSelf (some p) dl)) ∨
+       (∃ pos par, s.pc a = .nfy pos k par (.ofDeadline (.newSelf (some p) dl)))) ∧
+      (s'.notes k).expiry = Dl.min dl (s.notes p).expiry := by
+  have key : ∀ (a : Tid) (n : NoteId) (dk : DK) (x : Dl), e.actor = some a →
+      ((∃ pos nt, s.pc a = .dl pos n nt dk) ∨ (∃ pos par, s.pc a = .nfy pos n par (.ofDeadline dk))) →
+      x = newExpiryVal s n dk k →
+      (x = (s.notes k).expiry ∨
+       ∃ a p dl, e.actor = some a ∧ (s.pc a).creating = some k ∧
+        ((∃ pos nt, s.pc a = .dl pos k nt (.newSelf (some p) dl)) ∨
+         (∃ pos par, s.pc a = .nfy pos k par (.ofDeadline (.newSelf (some p) dl)))) ∧
+        x = Dl.min dl (s.notes p).expiry) := by
+    intro a n dk x ha hpc hx
+    by_cases hkn : k = n
+    · subst hkn
+      cases dk with
+      | newSelf par dl =>
+        cases par with
+        | none => left; simpa using hx
+        | some p =>
+          right
+          refine ⟨a, p, dl, ha, ?_, hpc, by simpa using hx⟩
+          rcases hpc with ⟨pos, nt, h⟩ | ⟨pos, par, h⟩ <;> rw [h] <;> simp
+      | _ => left; simpa using hx
+    · left; rw [hx, newExpiryVal_ne s dk hkn]
   cases e
   all_goals step_cases hs
   all_goals (try (left; rfl))
@@ -148,14 +172,16 @@ theorem step_expiry {s s' : State} {e : Event} (hs : step s e = .ok s') (k : Not
   all_goals (repeat' split)
   all_goals (try (left; simp; done))
   all_goals (first
-    | (simp only [setPc_notes, link_f_expiry, markBorn_notes, setExpiry_f_expiry]; split
-       · next hk' => subst hk'; right; exact ⟨_, _, _, rfl, by assumption, rfl, by assumption⟩
-       · left; rfl)
-    | skip)
-  · rename_i _ p hfresh
-    left
-    have hne : k ≠ p := fun h => by subst h; simp [hk] at hfresh
-    simp [hne]
+    | (refine key _ _ _ _ rfl (Or.inl ⟨_, _, by assumption⟩) (by simp); done)
+    | (rename_i nk hpc
+       cases nk with
+       | ofApi => left; simp
+       | ofDeadline dk =>
+         exact key _ _ dk _ rfl (Or.inr ⟨_, _, hpc⟩) (by simp))
+    | (rename_i p hfresh
+       left
+       have hne : k ≠ p := fun h => by subst h; simp [hk] at hfresh
+       simp [hne]))
 
 /-- The flag of a note is set only by a store on an allocated note. -/
 theorem step_flag_set {s s' : State} {e : Event} (hs : step s e = .ok s') (k : NoteId)
@@ -167,14 +193,19 @@ theorem step_flag_set {s s' : State} {e : Event} (hs : step s e = .ok s') (k : N
   all_goals (try (left; simpa using hk))
   all_goals (repeat' split at hk)
   all_goals (try (left; simpa using hk))
-  · simp only [childWakeNext_f_notified, setNotified_f_notified] at hk
-    split at hk
-    · next h => subst h; right; assumption
-    · left; exact hk
-  · simp only [setPc_notes, allocNote_f] at hk
-    split at hk
-    · simp [NoteRec.blank] at hk
-    · left; exact hk
+  all_goals (first
+    | (simp only [childWakeNext_f_notified, setNotified_f_notified] at hk
+       split at hk
+       · next h => subst h; right; assumption
+       · left; exact hk)
+    | (simp only [setPc_notes, markBorn_notes, setNotified_f_notified] at hk
+       split at hk
+       · next h => subst h; right; simp_all
+       · left; exact hk)
+    | (simp only [setPc_notes, allocNote_f] at hk
+       split at hk
+       · simp [NoteRec.blank] at hk
+       · left; exact hk))
 
 /-- A note becomes allocated only by `malloc`, which returns a blank record. -/
 theorem step_alloc {s s' : State} {e : Event} (hs : step s e = .ok s') (k : NoteId)
@@ -184,7 +215,7 @@ theorem step_alloc {s s' : State} {e : Event} (hs : step s e = .ok s') (k : Note
       s'.notes k = { NoteRec.blank with expiry := dl, allocated := true } ∧
       s'.pc a = .dl .ld1 k none (.newSelf par dl) ∧ s'.ownDl k = dl ∧
       s'.ancEver k = k :: s.ancOf par ∧ s'.pathMin k = s.minOf dl par ∧
-      s'.published = s.published ∧ s'.bornNotified = s.bornNotified) := by
+      s'.published = s.published ∧ s'.bornNotified = s.bornNotified ∧ s'.cparent k = par) := by
   have hst := step_stable hs
   cases e
   all_goals step_cases hs
@@ -196,7 +227,8 @@ theorem step_alloc {s s' : State} {e : Event} (hs : step s e = .ok s') (k : Note
     by_cases hkp : k = p
     · subst hkp
       right
-      exact ⟨_, _, _, rfl, by assumption, by simp, by simp, by simp, by simp, by simp, rfl, rfl⟩
+      exact ⟨_, _, _, rfl, by assumption, by simp, by simp, by simp, by simp, by simp, rfl, rfl,
+        by simp⟩
     · left; simpa [hkp] using hk
 
 /-! ### The invariant -/
